@@ -15,7 +15,7 @@ CLAIMS = {
          "the real reorder queue hands blocks to the writer in position order with the combined CRC restarted per stream; rely/guarantee steps of the real tasks keep the monitor invariant for 1..3 workers.",
          "Assumes C12 (shared state only touched under the scheduler lock). Codec calls are stubs in the scheduler queries. Non-nested overlaps of running tasks are covered only through the rely/guarantee argument, not explored."),
  "C04": ("5 (C04)", "collect() is proved equal to a byte-wise greedy-packing reference for one call from ANY valid pre-state (buffers of 0..2 symbolic bytes, capacity symbolic), INV is inductive, the in-line fast path is checked for every byte-equality pattern of 5-byte buffers the long-run patterns of 6/7 bytes and runs crossing the 259 limit inside one call; chunk size == block capacity; default mode: each piece is collected by a fresh encoder of the level's capacity from where the previous block stopped; --sequential: an unfinished block is continued with the next piece; hence blocks and splits of any length by composition.",
-         'Capacity explored 1..9 bytes (symbolic), not 100000..900000; 3-byte buffers from arbitrary pre-states are outside (the in-line shapes and the 259/260-byte run queries cover the paths they would add); the end-of-input flush of the sequential collector is not covered.'),
+         'Capacity explored 1..9 bytes (symbolic), not 100000..900000; 3-byte buffers from arbitrary pre-states are outside (the in-line shapes and the 259/260-byte run queries cover the paths they would add); the flush guard of the sequential collector (a partly filled block is handed on only at end of input; seeded change C03-3 is missed) is not covered.'),
  "C05": ("5 (C05)", 'Inductive steps over the real decoder, each against a strict reference and in both directions: symbol map buckets, table/selector counts, every selector, every 6-bit delta window and table start (strict bzip2 rule), decoding tables usable iff Kraft-complete + canonical symbol lookup, one symbol of the MTF-value loop (zero runs, run flush, block overflow, empty block, primary index), inverse BWT, emit() (missing run length, split-independence, resume states); parse() against the stream grammar from every grammar position (magic, level digit, CRC capture, combined CRC, stream CRC for all values, byte alignment, trailing-garbage rule); expand.c do_reorder() (declared size, block CRC for all values, decoder status) and do_parse() end-of-input padding rule.',
          'Scaled constants in several queries (code length 4..6, start width 2..3, block size 4, 40 selectors, slide 512). NOT covered: mtf_one() on a used sliding list, the fast-path copy of the symbol loop, randomised-block derandomisation beyond byte 617, composition across several symbols in one call.'),
  "C06": ("5 (C06)", 'Same obligations as C05 read in the accepting direction: every strictly valid bucket / selector / delta window / header sequence / complete table / symbol / block is accepted and decoded as the reference says; the two documented rejections are asserted as rejections.',
